@@ -65,9 +65,9 @@ impl Check for C02 {
     }
     fn n_runs(&self, thorough: bool) -> u64 {
         if thorough {
-            300_000
+            2_000_000
         } else {
-            8_000
+            40_000
         }
     }
     fn gen_plan(&self, seed: u64, idx: u64, _t: bool) -> Value {
